@@ -38,7 +38,8 @@ def run_stack(ctx, sigs=None, n_quick=36, n_thorough=600, tag="spkstack"):
     if not hok and not any("does not build" in c for c in ctx.corr_broken):
         ctx.corr_broken.append("harness TestVerifSpkStack failed: " + log[-1500:])
     if hok and not ctx.violations and not getattr(ctx, "replay_in", None):
-        for k in ("stack_histories", "stack_shared_configuration_checks", "stack_events_without_reload", "stack_ev_touch"):
+        for k in ("stack_histories", "stack_shared_configuration_checks", "stack_events_without_reload", "stack_ev_touch",
+                  "stack_gen_condition_appears_true", "stack_gen_true_condition_disappears", "stack_gen_condition_false_to_true", "stack_gen_condition_true_to_false"):
             if stats.get(k, 0) == 0:
                 import vlib
                 raise vlib.Broken("stack harness degenerate: counter %r is zero: %r" % (k, stats))
